@@ -1,8 +1,8 @@
 SPECIFICATION Spec
 CONSTANTS
   G = {1, 2}
-  Rows = {"r1"}
-  Acts = {"a1"}
+  Rows = {"r1", "r2"}
+  Acts = {}
   MaxBranches = 2
   MaxDup = 1
   MaxForeign = 0
@@ -13,10 +13,10 @@ CONSTANTS
   OblIdempotent = TRUE
   OblFence = TRUE
   OblP1Atomic = TRUE
-  OblLockQuery = TRUE
-  AllowReads = FALSE
+  OblLockQuery = FALSE
+  AllowReads = TRUE
   OblHonest = TRUE
-  AllowXA = TRUE
+  AllowXA = FALSE
   OblXATruthful = TRUE
-INVARIANTS TypeOK ATAtomicRollback TCCAtomic XAAtomic NoDirtyGlobalWrite RollbackPossible
+INVARIANTS NoDirtyGlobalRead TypeOK ATAtomicRollback TCCAtomic NoDirtyGlobalWrite RollbackPossible
 CHECK_DEADLOCK FALSE
